@@ -154,6 +154,51 @@ def freshness_items(repo):
                       "structural(freshness)", 0.0, where=fr.where(), mode="E", func=fr.qualname,
                       detail="only entries owned by the file are removed; a name another file also declares falls back to that file",
                       witness=None if ok else {"reason": "entries of other files are dropped, or a duplicate declaration is not restored"}))
+    # what Submodule.resolve_link copies onto the implementations of a previous call is taken back before the next lookup
+    sm = repo.func(P + "submodule.Submodule.resolve_link")
+    undo_at = guard_at = None
+    for i, st in enumerate(sm.node.body):
+        if isinstance(st, ast.For) and ast.unparse(st.iter) == "enumerate(self.children)" and undo_at is None:
+            txt = ast.unparse(st)
+            if "self.children[i] = placeholder" in txt and "child.restore_interface()" in txt:
+                undo_at = i
+        if isinstance(st, ast.If) and ast.unparse(st.test) == "self.ancestor_obj is None" and guard_at is None:
+            guard_at = i
+    missing = []
+    for cls in ("subroutine.Subroutine", "function.Function"):
+        def assigned(fname):
+            fi_ = repo.func(P + cls + "." + fname) if (P + cls + "." + fname) in dict(repo.all_functions()) else None
+            if fi_ is None:
+                return None
+            out = set()
+            for n in ast.walk(fi_.node):
+                if isinstance(n, (ast.Assign, ast.AugAssign, ast.AnnAssign)):
+                    for t in (n.targets if isinstance(n, ast.Assign) else [n.target]):
+                        for e in (t.elts if isinstance(t, ast.Tuple) else [t]):
+                            if isinstance(e, ast.Attribute) and ast.unparse(e.value) == "self":
+                                out.add(e.attr)
+                if isinstance(n, ast.Call) and ast.unparse(n.func).startswith("self.") and ast.unparse(n.func).endswith(".append"):
+                    out.add(ast.unparse(n.func).split(".")[1])
+            return out
+        cp, rs = assigned("copy_interface"), assigned("restore_interface")
+        if cp is None:
+            continue
+        if cls.endswith("Function"):
+            cp |= assigned_sub[0]
+            rs = (rs or set()) | assigned_sub[1]
+        else:
+            assigned_sub = (set(cp), set(rs or ()))
+        lost = sorted(f for f in cp - (rs or set()) if not f.startswith("own_"))
+        if lost:
+            missing.append({"class": cls, "copied_but_not_restored": lost})
+    ok = undo_at is not None and guard_at is not None and undo_at < guard_at and not missing
+    items.append(Item("C10/submodule.Submodule.resolve_link/ensures.undoes_previous_call", "proved" if ok else "refuted",
+                      "structural(freshness)", 0.0, where=sm.where(), mode="E", func=sm.qualname,
+                      detail="placeholders and the own interface of every implementation are restored before the ancestor is "
+                             "looked up again, and restore_interface() assigns every field copy_interface() assigns",
+                      witness=None if ok else {"undo_loop_statement": undo_at, "ancestor_guard_statement": guard_at, "fields": missing,
+                                               "reason": "what an earlier prototype copied onto the implementation survives its "
+                                                         "change or removal"}))
     rl_ok = "for var in self.variable_list:\n        var.type_obj = None" in rl_src
     items.append(Item("C10/ast.FortranAST.resolve_links/ensures.type_cache_reset", "proved" if rl_ok else "refuted",
                       "structural(freshness)", 0.0, where=rl.where(), mode="E", func=rl.qualname,
